@@ -37,7 +37,7 @@ class Job:
                  bound=None, replay=False, fallback=None, config='slack', min_obl=1,
                  entry='harness', checks=None, slice_tag=None, nondet_static=False,
                  note='', assumptions=(), object_bits=None, instrument=(), weight=1,
-                 no_repo_inc=False, sliced=False, split=None, no_std_checks=False, frame_prop=None, stubs=(), special=None):
+                 no_repo_inc=False, sliced=False, split=None, no_std_checks=False, frame_prop=None, stubs=(), special=None, variants=None):
         self.name = name
         self.props = list(props)
         self.engine = engine            # 'A' loop contracts, 'C' loop-free, 'B' bounded
@@ -71,6 +71,7 @@ class Job:
         self.no_repo_inc = no_repo_inc
         self.split = (engine == 'A') if split is None else split
         self.no_std_checks = no_std_checks
+        self.variants = variants             # list of dicts(label, defines, unwind, unwindset): one run each, merged
         self.special = special               # python callable(repo) -> obligations (static-fact jobs)
         self.stubs = list(stubs)             # /verif-relative model/stub sources (cbmc only, not linked into replays)
         self.frame_prop = frame_prop         # property an 'assigns' obligation belongs to (default C01)
@@ -213,6 +214,45 @@ def make_groups(cand):
 
 
 def run_job(job, tier='quick', want_trace=False, keep=None, select=None):
+    """Run a job; a job with `variants` is run once per variant (in parallel) and merged."""
+    if not job.variants:
+        return run_job1(job, tier, want_trace, keep, select)
+    import copy
+    import concurrent.futures as _cf
+    t0 = time.time()
+
+    def one(v):
+        j = copy.copy(job)
+        j.variants = None
+        j.defines = list(job.defines) + list(v.get('defines', []))
+        if 'unwind' in v:
+            j.unwind = v['unwind']
+        if 'unwindset' in v:
+            j.unwindset = list(v['unwindset'])
+        sel = select
+        if select is not None:
+            # obligation ids carry the variant label after the merge
+            sel = lambda o, _l=v['label']: select(dict(o, id=o['id'].split('@')[0]))
+        r = run_job1(j, tier, want_trace, keep, sel)
+        for o in r['obligations']:
+            o['id'] = '%s@%s' % (o['id'], v['label'])
+            o['variant'] = v['label']
+        return r
+    with _cf.ThreadPoolExecutor(max_workers=int(os.environ.get('VERIF_JOBS', os.cpu_count() or 4))) as ex:
+        rs = list(ex.map(one, job.variants))
+    res = {'job': job.name, 'engine': job.engine, 'state': 'ok', 'obligations': [], 'messages': [],
+           'cmds': rs[0]['cmds'][:] + ['... %d variants: %s' % (len(rs), ', '.join(v['label'] for v in job.variants[:6]) + (' ...' if len(rs) > 6 else ''))],
+           'solver_s': round(sum(r.get('solver_s', 0) for r in rs), 2), 'overlay': {}, 'variants': len(rs)}
+    for r, v in zip(rs, job.variants):
+        if r['state'] != 'ok':
+            res['state'] = r['state'] if res['state'] == 'ok' else res['state']
+            res['messages'] += ['[%s] %s' % (v['label'], m) for m in r['messages'][:3]]
+        res['obligations'] += r['obligations']
+    res['wall_s'] = round(time.time() - t0, 2)
+    return res
+
+
+def run_job1(job, tier='quick', want_trace=False, keep=None, select=None):
     """Execute one job. Returns dict:
        state: 'ok' | 'inapplicable' | 'error' | 'timeout'
        obligations: [ {id, desc, status, file, line, function, cls, trace?} ]
